@@ -34,7 +34,12 @@ func (k msgServer) CreateAccount(goCtx context.Context, msg *types.MsgCreateAcco
 		return nil, err
 	}
 
-	if pk == nil || !accAddress.Equals(sdk.AccAddress(pk.Address())) {
+	pkAddress, err := pubKeyAddress(pk)
+	if err != nil {
+		k.Logger(ctx).Error("public key address error", "error", err.Error())
+		return nil, sdkerrors.Wrap(sdkerrors.ErrInvalidPubKey, err.Error())
+	}
+	if !accAddress.Equals(pkAddress) {
 		return nil, sdkerrors.Wrapf(sdkerrors.ErrInvalidPubKey, "public key does not match address %s", msg.AccAddressString)
 	}
 	err = newAccount.SetPubKey(pk)
@@ -47,4 +52,18 @@ func (k msgServer) CreateAccount(goCtx context.Context, msg *types.MsgCreateAcco
 
 	return &types.MsgCreateAccountResponse{AccountNumber: fmt.Sprint(newAccount.GetAccountNumber())}, nil
 
+}
+
+// pubKeyAddress returns the address of a decoded public key. A key object of the wrong length decodes
+// from JSON without complaint, but the SDK's Address() panics on it: that is turned into an error.
+func pubKeyAddress(pk cryptotypes.PubKey) (addr sdk.AccAddress, err error) {
+	if pk == nil {
+		return nil, fmt.Errorf("public key is empty")
+	}
+	defer func() {
+		if r := recover(); r != nil {
+			addr, err = nil, fmt.Errorf("malformed public key: %v", r)
+		}
+	}()
+	return sdk.AccAddress(pk.Address()), nil
 }
